@@ -150,6 +150,25 @@ def run(ctx):
                 except Exception as ex:
                     errs.append(np.inf)
             ctx.check_array("numeric_same_rotation", site, errs, 1e-9, {"source": Pn})
+            # the source handed over in a structurally sparse container (exact zeros not stored): same conversion result
+            from .lie_common import structured_params
+            bad = None
+            for p_ in structured_params(s, rng):
+                conv = lambda v: ca.DM(getattr(groups[dst], METH[src])(groups[src].elem(v)).param).full().ravel()
+                try:
+                    d_ = conv(ca.DM(p_))
+                    sx = ca.SX(len(p_), 1)
+                    for i_, v_ in enumerate(p_):
+                        if v_ != 0:
+                            sx[i_] = float(v_)
+                    for alt in (conv(ca.sparsify(ca.DM(p_))), conv(sx)):
+                        if alt.shape != d_.shape or not np.allclose(alt, d_, rtol=1e-13, atol=1e-300, equal_nan=True):
+                            bad = bad or {"source": p_, "dense_container": d_, "sparse_container": alt}
+                except Exception as ex:
+                    bad = bad or {"source": p_, "exception": "%s: %s" % (type(ex).__name__, str(ex)[:160])}
+                ctx.tally("sparse_container_same_value:" + site)
+            if bad:
+                ctx.violation("sparse_container_same_value", site, bad)
         if dst == "quat" and src in ("matrix", "dcm", "euler"):
             ctx.note("shepperd_cells:" + site, sorted(ctx.cells.get("convert:" + site, [])))
 
